@@ -179,6 +179,7 @@ func genC06(seed uint64, idx int, tier string) *Scenario {
 				sc.Params["yield_pct"] = 50
 				sc.Params["yield_hot"] = []int{20, 40}[r.Intn(2)]
 			}
+			sc.Params["yield_rounds"] = []int{1, 1, 4, 12}[r.Intn(4)]
 		}
 	}
 	sc.Class = fmt.Sprintf("channels=%d filters=%d senders=%d%s", nc, nf, ns, map[bool]string{true: " slow", false: ""}[p.Slow != ""])
